@@ -1076,7 +1076,9 @@ func (ts *TermStore) BVToF(a *Term, to Sort) *Term {
 		if a.Op == OFToBV && a.Args[0].Sort.K == SInt {
 			return a.Args[0]
 		}
-		panic(abortPath{"ring-mode reinterpretation of bits as float"})
+		// bit patterns that are not the image of a ring value (partial byte writes such as freeScalar's zeroing):
+		// an uninterpreted function of the bits - consistent, otherwise unconstrained
+		return ts.UF(fmt.Sprintf("ringbits%d", a.Sort.W), to, a)
 	}
 	if a.IsConst() {
 		return ts.mk(OConst, to, a.Bits, "")
